@@ -559,3 +559,33 @@ Print Assumptions drain_complete.
 Print Assumptions round_fits.
 Print Assumptions round_total.
 Print Assumptions yield_round.
+
+(* ---- the message as a whole: with the 5 bytes exchangeServiceInfo reserves, every TO2.DeviceServiceInfo fits the
+   negotiated size, whatever the number of KVs in it (each KV takes at least 3 bytes, so a 16-bit size bounds the count
+   below 65536 and the array head at 3 bytes) ---- *)
+Lemma batch_size_count kvs : 3 * Z.of_nat (length kvs) <= batch_size kvs.
+Proof.
+  induction kvs as [|[k v] r IH]; cbn [batch_size fold_right length fst snd]; [lia|].
+  fold (batch_size r). pose proof (kv_size_ge3 k v). lia.
+Qed.
+
+Theorem message_fits st mtu kvs more st' :
+  wf_state st -> 5 <= mtu < 65536 -> round st (exchange_budget mtu) = RRound kvs more st' ->
+  message_size kvs <= mtu.
+Proof.
+  intros Hw Hm E. unfold exchange_budget in E.
+  destruct (round_fits st (mtu - 5) kvs more st' Hw ltac:(lia) E) as [S _].
+  fold (batch_size kvs) in S. pose proof (batch_size_count kvs) as C.
+  unfold message_size, arr_head.
+  destruct (Z.ltb_spec (Z.of_nat (length kvs)) 24); [lia|].
+  destruct (Z.ltb_spec (Z.of_nat (length kvs)) 256); [lia|].
+  destruct (Z.ltb_spec (Z.of_nat (length kvs)) 65536); lia.
+Qed.
+Print Assumptions message_fits.
+
+(* the reserve is tight: with only 3 bytes reserved a message of 24 KVs filled to the brim would not fit *)
+Example reserve_of_3_is_too_small :
+  exists kvs : list (bytes * bytes), batch_size kvs = 147 - 3 /\ 147 < message_size kvs.
+Proof.
+  exists (repeat ([x00], [x00]) 23 ++ [([x00], repeat x00 24)]). vm_compute. split; [reflexivity|reflexivity].
+Qed.
